@@ -52,7 +52,16 @@ namespace BitSerializer::Convert::Detail
 			else
 			{
 				auto value = static_cast<TTarget>(sourceValue);
-				result = (static_cast<TSource>(value) == sourceValue) && !((value > 0 && sourceValue < 0) || (value < 0 && sourceValue > 0));
+				if constexpr (std::is_floating_point_v<TTarget> && std::numeric_limits<TSource>::digits > std::numeric_limits<TTarget>::digits)
+				{
+					// The source maximum is not representable and rounds up to 2^N: such a value cannot be cast back (undefined behavior), it is inexact anyway
+					result = value < static_cast<TTarget>(std::numeric_limits<TSource>::max())
+						&& (static_cast<TSource>(value) == sourceValue) && !((value > 0 && sourceValue < 0) || (value < 0 && sourceValue > 0));
+				}
+				else
+				{
+					result = (static_cast<TSource>(value) == sourceValue) && !((value > 0 && sourceValue < 0) || (value < 0 && sourceValue > 0));
+				}
 				if (result) {
 					targetValue = value;
 				}
